@@ -84,6 +84,7 @@ ObjectFnNames == {ObjectFns[i].f : i \in 1..Len(ObjectFns)}
 Id_ObjectFn(i) == 28 + i         \* after the native error constructors and prototypes (17..28)
 Id_Eval == 28 + Len(ObjectFns) + 1
 Id_CB == Id_Eval + 1
+Id_Thrower == Id_CB + 1
 S_CB == <<67, 66>>
 S_defineProperties == <<100,101,102,105,110,101,80,114,111,112,101,114,116,105,101,115>>
 
@@ -577,6 +578,7 @@ CallIn(st, f, thisV, args) ==
                           ELSE IF g.d.k # "data" THEN Und(st)                 \* an accessor: not modelled here
                           ELSE IF g.d.v.t = "unmodelled" THEN Ok(st, BoolV(TRUE))
                           ELSE Ok(st, BoolV(g.d.v.t = "str" /\ g.d.v.s # <<>>))
+          [] fn.k = "thrower" -> ThrowErr(st, S_TypeError)                    \* 13.2.3 step 8
           [] fn.k = "bound" -> Call(st, fn.target, fn.this, fn.args \o args)
           [] fn.k = "builtin" ->
              (CASE fn.name = "call" -> Call(st, thisV, SeqGet(args, 1), IF Len(args) > 1 THEN SubSeq(args, 2, Len(args)) ELSE <<>>)
@@ -602,7 +604,12 @@ CallIn(st, f, thisV, args) ==
                                n == IF tl.v.t = "num" /\ tl.v.n.c = "int"
                                     THEN (IF tl.v.n.v - (IF Len(args) > 1 THEN Len(args) - 1 ELSE 0) > 0
                                           THEN tl.v.n.v - (IF Len(args) > 1 THEN Len(args) - 1 ELSE 0) ELSE 0) ELSE 0
-                           IN  Ok(SetH(b.st, DefData(b.st.H, b.id, S_length, IntV(n), FALSE, FALSE, FALSE)), ObjV(b.id))
+                               thr == [OM!EmptyDesc EXCEPT !.hg = TRUE, !.g = ObjV(Id_Thrower), !.hs = TRUE, !.s = ObjV(Id_Thrower),
+                                                             !.he = TRUE, !.e = FALSE, !.hc = TRUE, !.c = FALSE]
+                               H1 == DefData(b.st.H, b.id, S_length, IntV(n), FALSE, FALSE, FALSE)
+                               H2 == OM!DefineOwn(H1, b.id, S_caller, thr).H               \* 15.3.4.5 steps 20-21
+                               H3 == OM!DefineOwn(H2, b.id, S_arguments, thr).H
+                           IN  Ok(SetH(b.st, H3), ObjV(b.id))
                 [] fn.name = "OP_toString" ->
                       IF thisV.t = "undef" THEN Ok(st, StrV(ClassStr(<<85, 110, 100, 101, 102, 105, 110, 101, 100>>)))
                       ELSE IF thisV.t = "null" THEN Ok(st, StrV(ClassStr(<<78, 117, 108, 108>>)))
@@ -1191,6 +1198,8 @@ BaseObjects ==
     \o <<Builtin("eval")>>                                                         \* Id_Eval: the global eval function (15.1.2.1)
     \o <<[OM!NewObj("Function", FunctionProto) EXCEPT !.fn = [k |-> "hostcb"]]>>   \* Id_CB: the host function CB(f): an API call
                                                                                   \* (Value.Call) made by Go code while a script runs
+    \o <<[OM!NewObj("Function", FunctionProto) EXCEPT !.fn = [k |-> "thrower"], !.ext = FALSE]>>   \* Id_Thrower: the unique
+                                                                                  \* [[ThrowTypeError]] function object (13.2.3)
 
 RECURSIVE WireNative(_, _)
 WireNative(H, i) ==
